@@ -2,6 +2,7 @@ import TantivyModel.Driver.Proto
 import TantivyModel.Model.Grammar.Q
 import TantivyModel.Model.Grammar.Safe
 import TantivyModel.Driver.C16Chars
+import TantivyModel.Model.Grammar.Phrase
 /-!
 Line protocol of the C16 model.
 
@@ -16,6 +17,7 @@ Requests:
                                       for the lenient parser; `<docs>` = valuations separated by `|`,
                                       each a `;` separated list of true `field.id` keys (`-` = none)
 * `semq <o|a> <defaults> Q <docs>`  → per document `1`/`0` of `semQ`, or `undoc`
+* `phrase <flags>`                   → offsets of the compiled phrase terms (`Model/Grammar/Phrase.lean`)
 * `parse <hex>`                      → the character-layer strict parser, see Driver/C16Chars.lean
 * `safe <o|a> Q`                    → `1` iff `rewrite_ast` is meaning-preserving on `build q`
                                       by the side condition `safeWith` (see the comment before `C16_rewrite_preserves_sem_counterexample`)
@@ -147,6 +149,13 @@ def handle : List String → String
     match parseMode m, readQ q with
     | some m, some q => showBool (safe m (build q))
     | _, _ => "bad-op"
+  | ["phrase", flags] =>
+    -- offsets of the phrase terms compiled from a literal whose i-th word is kept iff flag i ≠ 0
+    match natList flags with
+    | some fs => showNatList ((Phrase.compile (Phrase.analyse (fun w => w != 0) fs)).map (·.1))
+    | none => "bad-op"
+  | ["printl", lead, occ, w, k, items] => C16Chars.handlePrintList lead occ w k items
+  | ["printt", toks] => C16Chars.handlePrintTree toks
   | ["parse", h] => C16Chars.handleParse h
   | ["parsel", h] => C16Chars.handleParseLenient h
   | ["parse2", h] => C16Chars.handleParseBoth h
